@@ -245,3 +245,238 @@ Proof.
     destruct Hin as ([k' v] & Hk & Hin). cbn in Hk. subst k'. apply abs_In in Hin.
     destruct Hin as (c & e & Hc & Hk & Hv). eapply D; eauto. apply live_val; eauto.
 Qed.
+
+(* ------------------------------------------------ the store loop (ins_loop) *)
+Definition bump_at (l : list nat) (c : nat) (e : id_entry) : id_entry :=
+  mkIdEntry (ie_key e) (ie_skips e + count_occ Nat.eq_dec l c) (ie_val e).
+
+(* vacant cells never carry a skip count: holds while a table is only filled *)
+Definition NoTomb (T : list id_entry) : Prop :=
+  forall c e, nth_error T c = Some e -> ie_val e = None -> ie_skips e = 0.
+
+Lemma ins_loop_char k id v asrt : forall d T s load fuel ed,
+  length T = 2 ^ k -> s < 2 ^ k -> d < fuel ->
+  (forall i, i < d -> exists e, nth_error T (path (2 ^ k) s i) = Some e /\ ie_live e = true) ->
+  nth_error T (path (2 ^ k) s d) = Some ed -> ie_val ed = None ->
+  (asrt = true -> ie_skips ed = 0) ->
+  exists T', ins_loop T (2 ^ k) id v s load fuel asrt = IdOk (T', load + d + 1) /\
+             length T' = 2 ^ k /\
+             forall c e, nth_error T c = Some e ->
+               nth_error T' c = Some (if c =? path (2 ^ k) s d then mkIdEntry id (ie_skips e) (Some v)
+                                      else bump_at (pref (2 ^ k) s d) c e).
+Proof.
+  induction d as [|d IH]; intros T s load fuel ed HL Hs Hf Hocc Hd Hv Ha;
+    (destruct fuel as [|f]; [lia|]); cbn [ins_loop].
+  - cbn [path] in *. rewrite Hd, Hv.
+    assert (A: asrt && negb (ie_skips ed =? 0) = false).
+    { destruct asrt; [|reflexivity]. rewrite Ha by reflexivity. reflexivity. }
+    rewrite A. eexists. split; [f_equal; f_equal; lia|]. split; [rewrite tupd_length; lia|].
+    intros c e Hc. rewrite tupd_nth by lia. destruct (c =? s) eqn:E.
+    + apply Nat.eqb_eq in E. subst c. rewrite Hd in Hc. inversion Hc; subst. reflexivity.
+    + rewrite Hc. f_equal. unfold bump_at, pref. cbn. destruct e; cbn. f_equal. lia.
+  - destruct (Hocc 0 ltac:(lia)) as (e0 & He0 & L0). cbn [path] in He0. rewrite He0.
+    destruct (live_val e0) as [LV _]. destruct (LV L0) as [v0 Hv0]. rewrite Hv0.
+    assert (Hne: path (2 ^ k) s (S d) <> s).
+    { intros E. rewrite E in Hd. rewrite He0 in Hd. inversion Hd; subst. congruence. }
+    set (T1 := tupd T s (mkIdEntry (ie_key e0) (S (ie_skips e0)) (Some v0))).
+    assert (HL1: length T1 = 2 ^ k) by (unfold T1; rewrite tupd_length; lia).
+    assert (N1: forall c, nth_error T1 c = if c =? s then Some (mkIdEntry (ie_key e0) (S (ie_skips e0)) (Some v0))
+                                          else nth_error T c).
+    { intros c. unfold T1. apply tupd_nth. lia. }
+    rewrite id_next_nxt.
+    destruct (IH T1 (nxt (2 ^ k) s) (S load) f ed HL1 (nxt_lt _ _ (pow2_pos k)) ltac:(lia)) as (T' & R & HL' & P).
+    + intros i Hi. rewrite <- path_succ_r. destruct (Hocc (S i) ltac:(lia)) as (e & He & Le).
+      rewrite N1. destruct (path (2 ^ k) s (S i) =? s); [|eauto].
+      eexists. split; [reflexivity|reflexivity].
+    + rewrite <- path_succ_r, N1. apply Nat.eqb_neq in Hne. now rewrite Hne.
+    + assumption.
+    + assumption.
+    + exists T'. split; [rewrite R; f_equal; f_equal; lia|]. split; [assumption|].
+      intros c e Hc. specialize (P c). rewrite N1 in P. rewrite <- path_succ_r in P.
+      rewrite pref_succ.
+      destruct (c =? s) eqn:Es.
+      * apply Nat.eqb_eq in Es. subst c. rewrite He0 in Hc. inversion Hc; subst e.
+        rewrite (P _ eq_refl). apply Nat.eqb_neq in Hne. rewrite Nat.eqb_sym, Hne.
+        f_equal. unfold bump_at. cbn [ie_key ie_skips ie_val]. rewrite Hv0.
+        rewrite count_occ_cons_eq by reflexivity. f_equal. lia.
+      * rewrite (P _ Hc). destruct (c =? path (2 ^ k) s (S d)); [reflexivity|].
+        f_equal. unfold bump_at. apply Nat.eqb_neq in Es. rewrite count_occ_cons_neq by congruence. reflexivity.
+Qed.
+
+(* the first vacant cell on a probe path *)
+Lemma first_vacant k T s : length T = 2 ^ k -> s < 2 ^ k -> sumf (2 ^ k) (lv T) < 2 ^ k ->
+  exists d, d < 2 ^ k /\ lv T (path (2 ^ k) s d) = 0 /\ forall i, i < d -> lv T (path (2 ^ k) s i) <> 0.
+Proof.
+  intros HL Hs Hv.
+  destruct (sumf_vacancy (2 ^ k) (lv T)) as (c & Hc & Hz); [|assumption|].
+  { intros i _. unfold lv, lvb. destruct (nth_error T i) as [e|]; [destruct (ie_live e)|]; lia. }
+  destruct (path_surj k s c Hs Hc) as (n & Hn & En).
+  destruct (Wf_nat.dec_inh_nat_subset_has_unique_least_element (fun n => lv T (path (2 ^ k) s n) = 0))
+    as (d & (Pd & Hmin) & _).
+  - intros x. destruct (Nat.eq_dec (lv T (path (2 ^ k) s x)) 0); [now left|now right].
+  - exists n. now rewrite En.
+  - exists d. assert (d <= n) by (apply Hmin; now rewrite En). split; [lia|]. split; [assumption|].
+    intros i Hi Hz'. specialize (Hmin i Hz'). lia.
+Qed.
+
+Lemma lv_live T p : lv T p <> 0 -> exists e, nth_error T p = Some e /\ ie_live e = true.
+Proof.
+  unfold lv, lvb. destruct (nth_error T p) as [e|]; [|lia]. destruct (ie_live e) eqn:E; [eauto|lia].
+Qed.
+Lemma lv_vacant T p : p < length T -> lv T p = 0 -> exists e, nth_error T p = Some e /\ ie_val e = None.
+Proof.
+  intros Hp. unfold lv, lvb. destruct (nth_error_lt T p Hp) as [e He]. rewrite He.
+  destruct (ie_live e) eqn:E; [lia|]. intros _. exists e. split; [reflexivity|now apply dead_val].
+Qed.
+
+(* what a table must look like, relative to T, after storing (id, v) at distance d *)
+Definition stored (k : nat) (T T' : list id_entry) (id v : N) (d : nat) : Prop :=
+  let s := id_index (2 ^ k) id in
+  length T' = 2 ^ k /\
+  forall c e, nth_error T c = Some e ->
+    nth_error T' c = Some (if c =? path (2 ^ k) s d then mkIdEntry id (ie_skips e) (Some v)
+                           else bump_at (pref (2 ^ k) s d) c e).
+
+Section Stored.
+Variables (k : nat) (T T' : list id_entry) (id v : N) (d : nat).
+Let s := id_index (2 ^ k) id.
+Let p := path (2 ^ k) s d.
+Hypothesis HL : length T = 2 ^ k.
+Hypothesis HT : TInv T.
+Hypothesis Hd : d < 2 ^ k.
+Hypothesis Hocc : forall i, i < d -> lv T (path (2 ^ k) s i) <> 0.
+Hypothesis Hvac : lv T p = 0.
+Hypothesis Hdead : forall c e, nth_error T c = Some e -> ie_live e = true -> ie_key e <> id.
+Hypothesis HS : stored k T T' id v d.
+
+Let Hs : s < 2 ^ k := id_index_lt k id.
+Let Hp : p < 2 ^ k := path_lt _ _ _ (pow2_pos k) Hs.
+Let HL' : length T' = 2 ^ k := proj1 HS.
+
+Lemma st_cell c : c < 2 ^ k -> exists e, nth_error T c = Some e /\
+  nth_error T' c = Some (if c =? p then mkIdEntry id (ie_skips e) (Some v) else bump_at (pref (2 ^ k) s d) c e).
+Proof.
+  intros Hc. destruct (nth_error_lt T c) as [e He]; [lia|]. exists e. split; [assumption|].
+  now apply (proj2 HS).
+Qed.
+
+Lemma st_p_notin : ~ In p (pref (2 ^ k) s d).
+Proof.
+  intros Hin. apply pref_In in Hin. destruct Hin as (i & Hi & E). apply (Hocc i Hi). now rewrite E.
+Qed.
+
+Lemma st_other c e' : c <> p -> nth_error T' c = Some e' ->
+  exists e, nth_error T c = Some e /\ ie_key e' = ie_key e /\ ie_val e' = ie_val e /\
+            ie_skips e' = ie_skips e + count_occ Nat.eq_dec (pref (2 ^ k) s d) c.
+Proof.
+  intros Hne Hc. assert (c < 2 ^ k) by (rewrite <- HL'; apply nth_error_Some; congruence).
+  destruct (st_cell c H) as (e & He & He'). apply Nat.eqb_neq in Hne. rewrite Hne in He'.
+  rewrite Hc in He'. inversion He'; subst e'. exists e. cbn. auto.
+Qed.
+
+Lemma st_at_p : exists e, nth_error T p = Some e /\ ie_val e = None /\
+  nth_error T' p = Some (mkIdEntry id (ie_skips e) (Some v)).
+Proof.
+  destruct (st_cell p Hp) as (e & He & He'). rewrite Nat.eqb_refl in He'.
+  exists e. split; [assumption|]. split; [|assumption].
+  destruct (lv_vacant T p ltac:(lia) Hvac) as (e2 & He2 & Hv2). congruence.
+Qed.
+
+Lemma st_lv i : i <> p -> lv T' i = lv T i.
+Proof.
+  intros Hne. unfold lv. destruct (nth_error T' i) as [e'|] eqn:E.
+  - destruct (st_other i e' Hne E) as (e & He & _ & Hv & _). rewrite He. unfold lvb, ie_live. now rewrite Hv.
+  - apply nth_error_None in E. assert (nth_error T i = None) by (apply nth_error_None; lia). now rewrite H.
+Qed.
+Lemma st_ld i : i <> p -> ld T' i = ld T i.
+Proof.
+  intros Hne. unfold ld. rewrite HL, HL'. destruct (nth_error T' i) as [e'|] eqn:E.
+  - destruct (st_other i e' Hne E) as (e & He & Hk & Hv & _). rewrite He. unfold ie_live, edist. now rewrite Hv, Hk.
+  - apply nth_error_None in E. assert (nth_error T i = None) by (apply nth_error_None; lia). now rewrite H.
+Qed.
+Lemma st_cr c i : i <> p -> cr T' c i = cr T c i.
+Proof.
+  intros Hne. unfold cr. rewrite HL, HL'. destruct (nth_error T' i) as [e'|] eqn:E.
+  - destruct (st_other i e' Hne E) as (e & He & Hk & Hv & _). rewrite He.
+    unfold ie_live, epref, edist. now rewrite Hv, Hk.
+  - apply nth_error_None in E. assert (nth_error T i = None) by (apply nth_error_None; lia). now rewrite H.
+Qed.
+
+Lemma st_dist_p : dist (2 ^ k) s p = d.
+Proof. apply dist_unique; assumption. Qed.
+
+Lemma st_count : sumf (2 ^ k) (lv T') = S (sumf (2 ^ k) (lv T)).
+Proof.
+  pose proof (sumf_upd (2 ^ k) (lv T) (lv T') p Hp (fun i _ Hne => st_lv i Hne)) as H.
+  rewrite Hvac in H. destruct st_at_p as (e & _ & _ & E). unfold lv at 3 in H. rewrite E in H. cbn in H. lia.
+Qed.
+
+Lemma st_load : sumf (2 ^ k) (ld T') = sumf (2 ^ k) (ld T) + S d.
+Proof.
+  pose proof (sumf_upd (2 ^ k) (ld T) (ld T') p Hp (fun i _ Hne => st_ld i Hne)) as H.
+  destruct st_at_p as (e & E0 & V0 & E). unfold ld at 2 3 in H. rewrite E, E0 in H.
+  apply dead_val in V0. rewrite V0 in H. cbn [ie_live ie_val] in H. unfold edist in H. cbn [ie_key] in H.
+  rewrite HL' in H. fold s in H. rewrite st_dist_p in H. lia.
+Qed.
+
+Lemma st_cross c : sumf (2 ^ k) (cr T' c) = sumf (2 ^ k) (cr T c) + count_occ Nat.eq_dec (pref (2 ^ k) s d) c.
+Proof.
+  pose proof (sumf_upd (2 ^ k) (cr T c) (cr T' c) p Hp (fun i _ Hne => st_cr c i Hne)) as H.
+  destruct st_at_p as (e & E0 & V0 & E). unfold cr at 2 3 in H. rewrite E, E0 in H.
+  apply dead_val in V0. rewrite V0 in H. cbn [ie_live ie_val] in H. unfold epref, edist in H. cbn [ie_key] in H.
+  rewrite HL' in H. fold s in H. rewrite st_dist_p in H. lia.
+Qed.
+
+Lemma st_TInv : TInv T'.
+Proof.
+  split.
+  - intros i j ei ej Hi Hj Li Lj K.
+    destruct (Nat.eq_dec i p) as [Ei|Ei]; destruct (Nat.eq_dec j p) as [Ej|Ej]; [congruence| | |].
+    + exfalso. subst i. destruct st_at_p as (e & _ & _ & E). rewrite E in Hi. inversion Hi; subst ei.
+      destruct (st_other j ej Ej Hj) as (e2 & He2 & Hk2 & Hv2 & _). cbn in K.
+      apply (Hdead j e2 He2); [|congruence]. unfold ie_live in *. now rewrite <- Hv2.
+    + exfalso. subst j. destruct st_at_p as (e & _ & _ & E). rewrite E in Hj. inversion Hj; subst ej.
+      destruct (st_other i ei Ei Hi) as (e2 & He2 & Hk2 & Hv2 & _). cbn in K.
+      apply (Hdead i e2 He2); [|congruence]. unfold ie_live in *. now rewrite <- Hv2.
+    + destruct (st_other i ei Ei Hi) as (e1 & He1 & Hk1 & Hv1 & _).
+      destruct (st_other j ej Ej Hj) as (e2 & He2 & Hk2 & Hv2 & _).
+      apply (ti_uniq T HT i j e1 e2); auto; unfold ie_live in *; congruence.
+  - intros c e' Hc. rewrite HL', st_cross.
+    destruct (Nat.eq_dec c p) as [E|E].
+    + subst c. destruct st_at_p as (e & E0 & _ & E1). rewrite E1 in Hc. inversion Hc; subst e'. cbn [ie_skips].
+      rewrite (ti_skips T HT p e E0), HL.
+      rewrite (count_occ_not_In Nat.eq_dec (pref (2 ^ k) s d) p) ; [lia|apply st_p_notin].
+    + destruct (st_other c e' E Hc) as (e & He & _ & _ & Sk). rewrite Sk, (ti_skips T HT c e He), HL. reflexivity.
+  - intros c e' Hc Hv. destruct (Nat.eq_dec c p) as [E|E].
+    + subst c. destruct st_at_p as (e & _ & _ & E1). rewrite E1 in Hc. inversion Hc; subst e'. discriminate.
+    + destruct (st_other c e' E Hc) as (e & He & Hk & Hv' & _). rewrite Hk. apply (ti_vacant T HT c e He). congruence.
+Qed.
+
+Lemma st_NoTomb : NoTomb T -> NoTomb T'.
+Proof.
+  intros NT c e' Hc Hv. destruct (Nat.eq_dec c p) as [E|E].
+  - subst c. destruct st_at_p as (e & _ & _ & E1). rewrite E1 in Hc. inversion Hc; subst e'. discriminate.
+  - destruct (st_other c e' E Hc) as (e & He & Hk & Hv' & Sk). rewrite Sk.
+    rewrite (NT c e He) by congruence.
+    rewrite (count_occ_not_In Nat.eq_dec (pref (2 ^ k) s d) c); [reflexivity|].
+    intros Hin. apply pref_In in Hin. destruct Hin as (i & Hi & Ei).
+    apply (Hocc i Hi). rewrite Ei. unfold lv. rewrite He. unfold lvb, ie_live. rewrite <- Hv', Hv. reflexivity.
+Qed.
+
+Lemma st_abs k' v' : In (k', v') (abs_list T') <-> (k' = id /\ v' = v) \/ In (k', v') (abs_list T).
+Proof.
+  rewrite !abs_In. split.
+  - intros (c & e' & Hc & Hk & Hv). destruct (Nat.eq_dec c p) as [E|E].
+    + subst c. destruct st_at_p as (e & _ & _ & E1). rewrite E1 in Hc. inversion Hc; subst e'. cbn in *.
+      left. split; congruence.
+    + destruct (st_other c e' E Hc) as (e & He & Hk2 & Hv2 & _). right. exists c, e. repeat split; congruence.
+  - intros [[-> ->]|(c & e & Hc & Hk & Hv)].
+    + destruct st_at_p as (e & _ & _ & E1). exists p, (mkIdEntry id (ie_skips e) (Some v)). auto.
+    + assert (c < 2 ^ k) by (rewrite <- HL; apply nth_error_Some; congruence).
+      destruct (st_cell c H) as (e2 & He2 & He2'). rewrite Hc in He2. inversion He2; subst e2.
+      destruct (c =? p) eqn:E.
+      * apply Nat.eqb_eq in E. subst c. exfalso. unfold lv in Hvac. rewrite Hc in Hvac.
+        unfold lvb, ie_live in Hvac. rewrite Hv in Hvac. lia.
+      * eexists c, _. split; [exact He2'|]. cbn. auto.
+Qed.
+End Stored.
